@@ -151,8 +151,8 @@ def rule_js_state(check, only_files=None):
     R5 = "JS-STATE"
     check.rule(R5, "module-level mutable state of the JS glue is exactly the reviewed set (the two source-map caches and the lazily loaded native class); in particular no regular expression with the g/y flag lives outside the function that uses it (its lastIndex would carry over from one call site to the next)")
     REVIEWED_STATE = {
-        ("js/source-map/index.js", "rewrittenSourceMapsCache"): "the cache of rewritten source maps (CACHE-DISCIPLINE governs its writes)",
-        ("js/source-map/index.js", "originalSourceMapsCache"): "LRU cache of original source maps read from disk",
+        ("js/source-map/index.js", jsast.cache_roles(sm)["rewritten"]): "the cache of rewritten source maps (CACHE-DISCIPLINE governs its writes)",
+        ("js/source-map/index.js", jsast.cache_roles(sm)["original"]): "LRU cache of original source maps read from disk",
         ("main.js", "NativeRewriter"): "native class, assigned once by getRewriter()",
     }
 
@@ -241,7 +241,7 @@ def run(check):
         for x in jsast.walk(sm.program):
             if x.get("type") == "CallExpression":
                 ch = callee_name(x)
-                if ch and ch[0] == "rewrittenSourceMapsCache" and ch[-1] in ("set", "delete", "clear"):
+                if ch and ch[0] == jsast.cache_roles(sm)["rewritten"] and ch[-1] in ("set", "delete", "clear"):
                     writes.append((x, ch[-1]))
         c.floor(R2, "writes to rewrittenSourceMapsCache", len(writes), 1)
         updaters = {}
@@ -344,7 +344,7 @@ def run(check):
         # destructured names come from findEntry's result
         h = sm.function("getSourcePathAndLineFromSourceMaps")
         hp = [jsast.param_name(p) for p in h["params"]]
-        gets = [x for x in jsast.walk(h) if x.get("type") == "CallExpression" and callee_name(x) == ["rewrittenSourceMapsCache", "get"]]
+        gets = [x for x in jsast.walk(h) if x.get("type") == "CallExpression" and callee_name(x) == [jsast.cache_roles(sm)["rewritten"], "get"]]
         okg = len(gets) == 1 and jsast.ident_name(call_args(gets[0])[0]) == hp[0]
         fwd = [x for x in jsast.walk(h) if x.get("type") == "CallExpression" and callee_name(x) == ["getPathAndLine"]]
         okw = len(fwd) == 1 and [jsast.ident_name(a) for a in call_args(fwd[0])][1:] == hp[:3]
